@@ -338,6 +338,22 @@ def run(rep, ctx):
             e = strip(e)
             return (e["k"], e.get("op"), e.get("callee"), e.get("v"), tuple(shape(z) for z in kids(e) if z))
         okc = mid and bool(ys) and any(shape(kids(x)[0]) == shape(top) for x in ils if not any(w is evs[0] for w in walk(x)))
+    # the threshold below which a domain counts as one point is an absolute constant <= 1e-6
+    thr_ok, thr_txt = False, "?"
+    for cid, pol in cd.cfg.facts_at(evs[0]) if evs else []:
+        cn = strip(cd.nodes[cid])
+        if pol and cn["k"] == "BinaryOperator" and cn.get("op") in (">", ">="):
+            rhs = strip(kids(cn)[1])
+            if rhs["k"] == "BinaryOperator" and rhs.get("op") == "-" and render(kids(rhs)[0]).replace("this->", "") == "ubx()" and render(kids(cn)[0]).replace("this->", "") == "lbx()":
+                c_ = strip(kids(rhs)[1])
+                thr_txt = render(c_)
+                try:
+                    val = float(c_.get("v")) if c_["k"] in ("FloatingLiteral", "IntegerLiteral") else None
+                except (TypeError, ValueError):
+                    val = None
+                thr_ok = val is not None and 0 <= val <= 1e-6
+    f1.check(thr_ok, "single-point-threshold", short_loc(cd.loc), "a domain is replaced by its midpoint only if it is narrower than a constant <= 1e-6",
+             "the domain is replaced by its midpoint when lbx() > ubx() - %s: the threshold is not an absolute constant <= 1e-6, so intervals wide enough for the function to vary by more than the tolerance are approximated by one point while the reported domain stays the whole interval" % thr_txt)
     f1.check(okc, "single-point-domain", short_loc(cd.loc), "a one-point domain yields the point (m, eval(m)) with m the midpoint")
     isl = one("InitSubintervalLoop")
     x0 = [v for v in isl.walk() if v["k"] == "VarDecl" and v.get("name") == "x0"]
